@@ -587,8 +587,13 @@ pub fn c06(a: &Analysis<'_>, out: &mut Vec<Violation>) {
                 let fin_at = evs[last.finished.unwrap()].at;
                 let zero_delay = matches!(sc.known_delay, Some(None));
                 if sc.serial {
-                    // a serial retry may be ready (unknown deadline): be conservative
-                    serial_ready = true;
+                    // A serial retry that is owed suspends the clause - unless its delay is known and
+                    // cannot have elapsed by this quiescent point (deadline >= finish stamp + delay):
+                    // then the runner must not hold concurrent scenarios back for it.
+                    let certainly_waiting = matches!(sc.known_delay, Some(Some(d)) if q.clock < fin_at.saturating_add(d));
+                    if !certainly_waiting {
+                        serial_ready = true;
+                    }
                 } else if zero_delay && fin_at < t_fin {
                     ready += 1;
                 }
